@@ -196,6 +196,8 @@ impl Family for C02 {
         let kind = RdKind::ALL[((index / 2) % 5) as usize];
         let pattern = PATTERNS[((index / 10) % 5) as usize];
         if crate::giant::is_giant_index(index) {
+            // (the index selects the endianness above: draw it anew, giant indices are all odd)
+            let e = if rng.chance(1, 2) { En::BE } else { En::LE };
             let g = crate::giant::unary_only(crate::giant::gen_giant(rng));
             return S02 {
                 e,
@@ -323,18 +325,19 @@ impl Family for C02 {
     }
 
     fn rule() -> &'static str {
-        "one case = (endianness, reader {BufBitReader over u8/u16/u32/u64, BitReader}, backend {zero-extended, strict, vector/slice writer read back, WordAdapter over SimDisk, WordAdapter over std BufReader over SimDisk; the two device backends with benign Short/Interrupted read faults at a per-run rate 0-30%}, image pattern {random, all-ones, all-zeros, sparse, long zero runs} of 1-64 words, history of <=48 read_bits/read_unary/skip_bits/peek_bits(x2)/clone ops with widths biased to 0,1,W-1,W,W+1,2W-1..2W+1,63,64 and to the distance to the next word boundary; on zero-extended backends the history runs up to 3 words past the end). distinct_nontrivial = distinct (endianness, reader, op kind, bits held in the reader's buffer before the op as measured from the backend word counter, width argument, previous op kind) signatures"
+        "one case = (endianness, reader {BufBitReader over u8/u16/u32/u64, BitReader}, backend {zero-extended, strict, vector/slice writer read back, WordAdapter over SimDisk, WordAdapter over std BufReader over SimDisk; the two device backends with benign Short/Interrupted read faults at a per-run rate 0-30%}, image pattern {random, all-ones, all-zeros, sparse, long zero runs} of 1-64 words, history of <=48 read_bits/read_unary/skip_bits/peek_bits(x2)/clone ops with widths biased to 0,1,W-1,W,W+1,2W-1..2W+1,63,64 and to the distance to the next word boundary; on zero-extended backends the history runs up to 3 words past the end). distinct_nontrivial = distinct (endianness, reader, op kind, bits held in the reader's buffer before the op as measured from the backend word counter, width argument, previous op kind) signatures Scale scenarios: one run in 200-400 has several hundred operations or a zero run / unary part / copy / skip / slice above 2^16 bits; one run in 100 000 (sim/src/giant.rs) has a zero run of 2^32-2 .. 2^32+137 bits served by a sparse word source (real head and tail words, zero words in between) and read by one read_unary."
     }
 
     fn components() -> (Vec<&'static str>, Vec<&'static str>) {
         (
             vec!["BufBitReader<BE|LE> over u8,u16,u32,u64", "BitReader<BE|LE>", "MemWordReader (zero-extended, strict)", "MemWordWriterVec / MemWordWriterSlice read back", "WordAdapter", "std::io::BufReader"],
-            vec!["SimDisk (benign faults only in this family)"],
+            vec!["SimDisk (benign faults only in this family)", "sparse zero-run word source (scale scenarios)"],
         )
     }
 
     fn required_probes(_t: Tier) -> Vec<&'static str> {
         vec![
+            "scale.giant_unary_read",
             "rd.fill_above_one_word",
             "rd.n64_empty_buffer",
             "rd.read_spans_3_words",
